@@ -69,3 +69,28 @@ for dp, dn, fn in os.walk(root):
                          if any(isinstance(n, (ast.Yield, ast.YieldFrom)) for n in _own_walk(fnode)))
 json.dump(gens, open(os.path.join(os.path.dirname(TABLE), 'canon_shape.json'), 'w'), indent=0)
 print('generators:', sum(len(v) for v in gens.values()))
+
+# how the reference tree spells each argument of calls to its own functions / classes (positional or keyword), per callee simple name
+spell = {}
+for dp, dn, fn in os.walk(root):
+  for f in sorted(fn):
+    if f.endswith('.py'):
+      p = os.path.join(dp, f)
+      mod = os.path.relpath(p, root)[:-3].replace(os.sep, '.')
+      if mod.endswith('__init__'):
+        mod = mod[:-len('.__init__')] if '.' in mod else '__init__'
+      tree = ast.parse(open(p).read())
+      from ginsa.normalize import callee_signatures, bind_call
+      sigs = callee_signatures(tree)
+      m = {}
+      for n in ast.walk(tree):
+        if isinstance(n, ast.Call):
+          b = bind_call(n, sigs)
+          if b is None:
+            continue
+          name, params, bound, how = b
+          for p_, h in how.items():
+            m.setdefault(name, {}).setdefault(p_, {'pos': 0, 'kw': 0})[h] += 1
+      spell[mod] = {k: {p_: ('pos' if c['pos'] >= c['kw'] else 'kw') for p_, c in v.items()} for k, v in m.items()}
+json.dump(spell, open(os.path.join(os.path.dirname(TABLE), 'canon_calls.json'), 'w'), indent=0, sort_keys=True)
+print('call spellings:', sum(len(v) for v in spell.values()))
